@@ -13,7 +13,7 @@
  *       scenario file:   pre <op>;<op>...        (executed by the main thread before the threads start)
  *                        t <tid> <op>;<op>...
  *
- * Names are the integers 1..; name k is registered as the string "n<k>".  Values are small integers v encoded
+ * Names are the integers 1..; name k is registered as the string "n" followed by k times 'x' (every name is a proper prefix of the longer ones).  Values are small integers v encoded
  * as the pointer pattern v * 0x0101010101010101 (every byte non zero, so that a partially overwritten slot is
  * visible); any other pointer is logged as 99.  The constructor of name k builds the value 10 + k.
  */
@@ -35,6 +35,8 @@
 static parsec_info_t nfo;
 static parsec_info_object_array_t oas[MAXO + 1];
 static int oa_inited[MAXO + 1];
+/* name k = "n" + k times 'x': shorter names are proper prefixes of longer ones */
+static void mkname(char *b, int k) { int i; b[0] = 'n'; for( i = 0; i < k && i < 30; i++ ) b[1 + i] = 'x'; b[1 + i] = 0; }
 static volatile int ids[MAXN + 1];         /* identifier the real code gave to name k, -1 = none */
 static volatile long dtor_calls;
 
@@ -66,10 +68,10 @@ static int parse_op(char *tok, op_t *o)
 /* executes one operation on the real code; returns its result in the abstract encoding */
 static int do_op(const op_t *o)
 {
-    char name[16];
+    char name[40];
     if( !strcmp(o->op, "reg") ) {
         int n = o->a[0], r;
-        snprintf(name, sizeof(name), "n%d", n);
+        mkname(name, n);
         r = parsec_info_register(&nfo, name, o->a[2] ? dtor_fn : NULL, (void*)(intptr_t)n,
                                  o->a[1] ? ctor_fn : NULL, (void*)(intptr_t)n, NULL);
         if( r != PARSEC_INFO_ID_UNDEFINED ) ids[n] = r;
@@ -82,7 +84,7 @@ static int do_op(const op_t *o)
         return r;
     }
     if( !strcmp(o->op, "lk") ) {
-        snprintf(name, sizeof(name), "n%d", o->a[0]);
+        mkname(name, o->a[0]);
         return parsec_info_lookup(&nfo, name, NULL);
     }
     if( !strcmp(o->op, "obj") ) {
@@ -135,7 +137,7 @@ static void log_state(FILE *out, const op_t *o, int r)
          it != PARSEC_LIST_ITERATOR_END(&nfo.info_list) && fuel-- > 0;
          it = PARSEC_LIST_ITERATOR_NEXT(it) ) {
         parsec_info_entry_t *ie = (parsec_info_entry_t*)it;
-        fprintf(out, "%s[%d,%d]", first ? "" : ",", atoi(ie->name + 1), (int)ie->iid);
+        fprintf(out, "%s[%d,%d]", first ? "" : ",", (int)strlen(ie->name) - 1, (int)ie->iid);
         first = 0;
     }
     fprintf(out, "],\"maxid\":%d,\"objs\":[", nfo.max_id);
